@@ -257,6 +257,12 @@ func (ex *Exec) assert(kind, label string, goal *T) {
 	if goal == True {
 		return
 	}
+	// name a large antecedent once so that the split parts share it
+	if goal.Op == "=>" && len(goal.A[0].str) > 200 && len(splitGoal(goal.A[1])) > 1 && ex.quiet == 0 {
+		h := ex.fresh("hyp", SBool)
+		ex.rawFact(Eq(h, goal.A[0]))
+		goal = Imp(h, goal.A[1])
+	}
 	if parts := splitGoal(goal); len(parts) > 1 {
 		for i, p := range parts {
 			ex.assert(kind, fmt.Sprintf("%s.%d", label, i+1), p)
